@@ -19,7 +19,8 @@ def run(ctx):
     ctx.not_claimed(_pipe.OUTSIDE)
     C = []
     ks = [8, 33, 9, 25, 19] if q else list(range(len(P.HOLES)))
-    C += PC.text_holes(ctx, own, ks, vis=(4,) if q else (0, 4, 8))
-    C += PC.spell_holes(ctx, own, [0, 8] if q else range(len(P.SPELL)))
-    C += PC.label_holes(ctx, own, [20] + _pipe.pick(ctx, 1, len(P.SKELS), 7) if q else range(len(P.SKELS)), vis=(4,) if q else (0, 4, 8))
+    if not q:
+        C += PC.text_holes(ctx, own, ks, vis=(4,) if q else (0, 4, 8))
+    C += PC.spell_holes(ctx, own, range(0, len(P.SPELL), 3) if q else range(len(P.SPELL)))
+    C += PC.label_holes(ctx, own, [20, 22] + _pipe.pick(ctx, 1, len(P.SKELS), 7) if q else range(len(P.SKELS)), vis=(4,) if q else (0, 4, 8))
     xh.run_conditions(ctx, C)
